@@ -31,7 +31,9 @@ RULE = ("scenarios from the grammar in harness/scen.py for strategy 'schedule' (
         "no departure time, shared station); every strategy step of every run is "
         "one model evaluation; non-trivial = a run with at least one step in which a station carries power; "
         "distinct = distinct (seed, index, sub-strategy)")
-ASSUMPTIONS = ["floats compared by value (+0.0 == -0.0), no tolerance",
+ASSUMPTIONS = ["the model is the code repaired by fixes/SCH1.diff, SCH2.diff, SCH3.diff (lost V2G commands, excess branch and target "
+               "above the limit); on a tree without them the collective steps concerned disagree",
+               "floats compared by value (+0.0 == -0.0), no tolerance",
                "Python ints that occur where floats are expected (0 defaults, JSON ints) are rendered as the equal float",
                "all datetimes are timezone-aware (the adapter refuses naive ones)"]
 UNPROVED = ["fuel of the bisections (1100) and of the collective retry loop (10**7) is supplied by the driver; sufficiency is "
